@@ -505,9 +505,29 @@ M('C03', 'silent-derivative-rewrite', S, "                dxdt[s] += prop[ self.
 # ------------------------------------------------------------------ C04
 M('C04', 'rhs-without-rules', S, "    (<CSimInterface>global_simulator).apply_repeated_rules(<double*> state.data,t, rule_step)\n", "", 'fire', 'R4.1-rhs')
 M('C04', 'rhs-time-frozen', S, "<double*> global_derivative_buffer.data, t)\n    return global_derivative_buffer\n\ndef rhs_ivp", "<double*> global_derivative_buffer.data, 0.0)\n    return global_derivative_buffer\n\ndef rhs_ivp", 'fire', 'R4.1-rhs')
-M('C04', 'x0-not-initial-state', S, "        cdef np.ndarray x0 = sim.get_initial_state().copy()\n", "        cdef np.ndarray x0 = np.zeros(sim.get_initial_state().shape[0])\n", 'fire', 'R4.3-odeint-call')
+M('C04', 'x0-not-initial-state', S, "        cdef np.ndarray x0 = sim.get_initial_state().copy()\n", "        cdef np.ndarray x0 = np.zeros(sim.get_initial_state().shape[0])\n", 'fire', 'R4.2-globals')
 M('C04', 'odeint-other-grid', S, "odeint(rhs_global, x0, timepoints,atol=self.atol", "odeint(rhs_global, x0, timepoints[::-1],atol=self.atol", 'fire', 'R4.3-odeint-call')
 M('C04', 'failed-returns-partial', S, "            return SSAResult(timepoints,results * np.nan)", "            return SSAResult(timepoints,results)", 'fire', 'R4.3-odeint-call')
 M('C04', 'global-pointer-stale', S, "        global_simulator = <void*> sim\n", "", 'fire', 'R4.2-globals')
 M('C04', 'buffer-wrong-size', S, "        global_derivative_buffer = np.empty(num_species,)", "        global_derivative_buffer = np.empty(num_reactions,)", 'fire', 'R4.2-globals')
 M('C04', 'silent-tolerances', S, "        self.atol = 1.49012e-8\n        self.rtol = 1.49012e-8", "        self.atol = 1.0e-8\n        self.rtol = 1.0e-8", 'silent')
+
+# ------------------------------------------------------------------ C02
+M('C02', 'pow-operands-swapped', T, "        powerterm.set_base( sympy_recursion(args[0],species2index,params2index) )\n        powerterm.set_exponent( sympy_recursion(args[1], species2index,params2index) )",
+  "        powerterm.set_base( sympy_recursion(args[1],species2index,params2index) )\n        powerterm.set_exponent( sympy_recursion(args[0], species2index,params2index) )", 'fire', 'R2.2-translation/Pow')
+M('C02', 'min-max-crossed', T, "    elif type(tree) == sympy.Max:\n        maxterm = MaxTerm()", "    elif type(tree) == sympy.Max:\n        maxterm = MinTerm()", 'fire', 'R2.2-translation/Max')
+MUTANTS.append({'prop': 'C02', 'name': 'max-comparison-flipped', 'kind': 'fire', 'expect': 'R2.1-node-semantics/MaxTerm', 'file': T, 'occurrences': 2,
+                'old': "            if temp > ans:\n                ans = temp", 'new': "            if temp < ans:\n                ans = temp"})
+M('C02', 'product-starts-at-zero', T, "        cdef double ans = 1.0\n        cdef unsigned i\n        for i in range(self.terms.size()):\n            ans *= (<Term>(self.terms[i])).evaluate(species, params,time)",
+  "        cdef double ans = 0.0\n        cdef unsigned i\n        for i in range(self.terms.size()):\n            ans *= (<Term>(self.terms[i])).evaluate(species, params,time)", 'fire', 'R2.1-node-semantics/ProductTerm.evaluate')
+M('C02', 'volume-not-passed-down', T, "            ans += (<Term>(self.terms[i])).volume_evaluate(species,params,vol, time)", "            ans += (<Term>(self.terms[i])).evaluate(species,params, time)", 'fire', 'R2.1-node-semantics/SumTerm.volume_evaluate')
+M('C02', 'sum-skips-first', T, "        for i in range(self.terms.size()):\n            ans += (<Term>(self.terms[i])).evaluate(species, params, time)", "        for i in range(1, self.terms.size()):\n            ans += (<Term>(self.terms[i])).evaluate(species, params, time)", 'fire', 'R2.1-node-semantics/SumTerm.evaluate')
+M('C02', 'unknown-name-becomes-zero', T, "            raise ValueError(f\"Unknown term {name} not found in Species, Parameters, or built-in-terms.\")", "            return ConstantTerm(0.0)", 'fire', 'R2.3-rejection/unknown-name')
+M('C02', 'species-looked-up-in-params', T, "        if name in species2index:\n            return SpeciesTerm(species2index[ name ])", "        if name in species2index:\n            return SpeciesTerm(params2index[ name ])", 'fire', 'R2.3-rejection/unknown-name')
+M('C02', 'nonnumeric-node-default', T, "        except:\n            raise SyntaxError('This should be a number: ' + str(tree))", "        except:\n            return ConstantTerm(0.0)", 'fire', 'R2.3-rejection/unknown-node')
+M('C02', 'add-drops-last-arg', T, "        sumterm = SumTerm()\n        for a in args:", "        sumterm = SumTerm()\n        for a in args[:-1]:", 'fire', 'R2.2-translation/Add')
+M('C02', 'volume-term-without-volume', T, "    cdef double evaluate(self, double *species, double *params, double time):\n        return 1.0", "    cdef double evaluate(self, double *species, double *params, double time):\n        return 0.0", 'fire', 'R2.1-node-semantics/VolumeTerm.evaluate')
+M('C02', 'log-base', T, "        return log(self.arg.evaluate(species,params,time))", "        return log(self.arg.evaluate(species,params,time)) / log(10.0)", 'fire', 'R2.1-node-semantics/LogTerm.evaluate')
+M('C02', 'classifier-misses-caret', T, "    instring = instring.replace('^','**')\n    instring = instring.replace('|','_')\n    root = sympy.sympify(instring, _clash1)", "    instring = instring.replace('|','_')\n    root = sympy.sympify(instring, _clash1)", 'fire', 'R2.4-classifier-agreement')
+M('C02', 'silent-step-strict', T, "        if self.arg.evaluate(species,params,time) >= 0:\n            return 1.0\n        return 0", "        if self.arg.evaluate(species,params,time) > 0:\n            return 1.0\n        return 0.0", 'silent')
+M('C02', 'silent-power-pow', T, "        return self.base.evaluate(species,params,time) ** \\\n               self.exponent.evaluate(species,params,time)", "        return pow(self.base.evaluate(species,params,time), self.exponent.evaluate(species,params,time))", 'silent')
